@@ -7,6 +7,7 @@ HERE = os.path.dirname(os.path.abspath(__file__))
 sys.path.insert(0, HERE)
 import sdoc as S  # noqa
 import builderfam  # noqa
+import evalfam  # noqa
 
 
 # ---------------------------------------------------------------------------
@@ -366,7 +367,106 @@ BUILDER = {
     },
 }
 
+def _gen_eval(rng, max_stages, p_bad=0.25, calls=True):
+    """configs with cross-references (chains, fan-in, forward/backward, into and out of containers and call arguments,
+    sometimes dangling / self / cyclic) and recording calls; optionally a later stage overriding / deleting entries"""
+    keys = ["a", "b", "c", "d"]
+    holes = []
+
+    def node(depth):
+        r = rng.random()
+        if r < 0.30:
+            h = S.SD("xref", None, form="tag")
+            holes.append(h)
+            return h
+        if calls and r < 0.45:
+            n = rng.randint(0, 2)
+            return S.SD("call", None, [[S.key_of_py(k), node(depth - 1) if depth > 0 else S.leaf(1)] for k in rng.sample(keys, n)],
+                        fn="vmod.rec", form="tag")
+        if calls and r < 0.50:
+            return S.SD("bind", None, [[S.key_of_py(k), node(depth - 1) if depth > 0 else S.leaf(1)] for k in rng.sample(keys, rng.randint(0, 1))],
+                        fn="vmod.rec", form="tag")
+        if depth > 0 and r < 0.68:
+            return S.mapping([(k, node(depth - 1)) for k in rng.sample(keys, rng.randint(0, 3))])
+        if depth > 0 and r < 0.80:
+            return S.sequence([node(depth - 1) for _ in range(rng.randint(0, 3))])
+        return S.leaf(rng.choice([1, 2, "x", None, True, 2.5, 0, ""]))
+
+    doc = S.mapping([(k, node(2)) for k in rng.sample(keys, rng.randint(2, 4))])
+    paths = [p for p, _ in _paths_of_sd(doc) if p]
+    for h in holes:
+        if rng.random() < p_bad or not paths:
+            h["ref"] = [S.key_of_py(x) for x in rng.choice([("zz",), ("a", "zz"), ("a", 7)])]
+        else:
+            h["ref"] = [S.key_of_py(x) for x in rng.choice(paths)]
+    docs = [doc]
+    if max_stages > 1 and rng.random() < 0.35:
+        over = []
+        for k, c in doc["ch"]:
+            if rng.random() < 0.4:
+                over.append((S.key_py(k), rng.choice([S.leaf(5), S.with_tag(S.leaf(None), "del"), S.sequence([]),
+                                                       S.SD("call", None, [], fn="vmod.rec", form="tag")])))
+        if over:
+            docs.append(S.mapping(over))
+    return docs, [True] * len(docs)
+
+
+def _gen_eval_good(rng, max_stages):
+    return _gen_eval(rng, max_stages, p_bad=0.0)
+
+
+def _eval_nontrivial(docs):
+    def f(sd):
+        return sd["k"] in ("xref", "call", "bind") or any(f(c) for _, c in sd["ch"])
+    return any(f(d) for d in docs)
+
+
+EVAL = {
+    "C09": {
+        "invariants": ["Inv_C09", "StepBound"],
+        "exh": {"quick": [("EU_C09_DocsS", 1, 1)], "thorough": [("EU_C09_Docs", 1, 1)]},
+        "liveness": {"quick": [("EU_C09_DocsS", 1, 1)], "thorough": [("EU_C09_DocsS", 1, 1)]},
+        "mutations": [{"switch": "NoCycleCheck", "docs": "EU_C09_DocsS", "stages": (1, 1), "expect": ["Terminates"]},
+                      {"mutation": "CopyOnXRef", "docs": "EU_C09_DocsS", "stages": (1, 1), "expect": ["Inv_C09"]}],
+        "gen": _gen_eval, "random": {"quick": 1500, "thorough": 25000}, "max_stages": 2,
+        "nontrivial": _eval_nontrivial,
+        "rule": "A: every config with top-level keys a b (c) whose values are a scalar, a reference to any of 9 path expressions "
+                "(existing, missing, itself, ancestors, descendants), or a mapping / list / !call holding one of those - chains, fan-in, "
+                "forward and backward references, cycles of length 1-3 - built, constructed and evaluated, outcome (status, data, "
+                "object identities, evaluation order) compared; liveness (Terminates under weak fairness, no state constraint); "
+                "B: seeded random configs (depth<=3, 4 keys, lists, calls, 25% dangling targets) recorded and validated by TLC. "
+                "non-trivial = the config contains a reference or a call; distinct by content",
+    },
+    "C10": {
+        "invariants": ["Inv_C10", "StepBound"],
+        "exh": {"quick": [("EU_C10_DocsS", 1, 1), ("EU_C10_Hist", 2, 2, "EU_C10_HistRange")],
+                "thorough": [("EU_C10_Docs", 1, 1), ("EU_C10_Hist", 2, 2, "EU_C10_HistRange")]},
+        "mutations": [{"mutation": "NoIdCache", "docs": "EU_C10_DocsS", "stages": (1, 1), "expect": ["Inv_C10"]}],
+        "gen": _gen_eval, "random": {"quick": 1500, "thorough": 25000}, "max_stages": 2,
+        "nontrivial": _eval_nontrivial,
+        "rule": "A: every config with one to three recording !call nodes consumed by references, call arguments, list and mapping "
+                "elements and !bind arguments (key order of consumers before / after producers included), and every 2-stage history "
+                "overwriting or deleting any subset of the top-level dynamic nodes; call log (which node, how often, in which order) and "
+                "object identities compared; B: seeded random configs. non-trivial = contains a call or a reference; distinct by content",
+    },
+    "C11": {
+        "invariants": ["Inv_C11"],
+        "lifecycle": True, "max_evals": 2, "issues_matter": True,
+        "exh": {"quick": [("EU_C10_DocsS", 1, 1)], "thorough": [("EU_C10_Docs", 1, 1), ("EU_C09_DocsS", 1, 1)]},
+        "mutations": [{"mutation": "EvalSharesHeap", "docs": "EU_C10_DocsS", "stages": (1, 1), "expect": ["Inv_C11"], "max_evals": 2}],
+        "gen": _gen_eval_good, "random": {"quick": 1500, "thorough": 25000}, "max_stages": 2,
+        "nontrivial": _eval_nontrivial,
+        "rule": "A: the C10 configs built and evaluated, then the kept source evaluated again and an earlier result mutated (TLC: Again / "
+                "Mutate actions, heap ids disjoint, re-evaluation equal); in the library: exact Python types of every value and key, "
+                "attribute-dict access, no node anywhere in the result, source projection unchanged by evaluation, by re-evaluation and "
+                "by mutating every container of the result; B: seeded random configs without dangling references (all scalar types). "
+                "non-trivial = contains a call or a reference; distinct by content",
+    },
+}
+
 CHECKS = {}
+for _p, _spec in EVAL.items():
+    CHECKS[_p] = functools.partial(evalfam.run, _spec)
 for _p, _spec in BUILDER.items():
     CHECKS[_p] = functools.partial(builderfam.run, _spec)
 
@@ -384,6 +484,11 @@ ENGINES = [
                        "histories are validated by TLC against spec/AyBuildTrace.tla with the property formula evaluated on the "
                        "logged outcomes; mutation cfgs must be refuted"},
 ]
+ENGINES.append({"name": "eval-family", "path": "/verif/harness/evalfam.py", "serves_properties": ["C09", "C10", "C11"],
+    "kind_free_text": "TLC over spec/MC_Eval.tla (AyBuild followed by AyEval: Start / EnterChild / FinishContainer / XRefFollow / "
+                      "XRefEnter / XRefAlias / XRefTaken / FnGate ... plus Again / Mutate) with safety invariants and the liveness "
+                      "property Terminates; behaviours replayed through Builder + Config with an instrumented EvalContext subclass; "
+                      "recorded evaluations validated against spec/EvalTrace.tla"})
 META = {
     "C02": {"engine": "builder-family", "design_ref": "DESIGN.md 5/C02",
             "technique": "TLC model checking of AyBuild + trace validation / behaviour replay against the library",
@@ -455,6 +560,32 @@ META["C16"] = {"engine": "builder-family", "design_ref": "DESIGN.md 5/C16",
             "order; exhaustive over the named universes, behaviours replayed, random histories validated by TLC; mutations PrevCopies "
             "and AppendPrepends must be refuted.",
     "note": _BUILDER_NOTE + "; documents carry no priority / delete tags (those are C03/C04); operator targets are mapping paths"}
+_EVAL_NOTE = ("trusted: TLC 1.8, harness/evalobs.py (EvalContext subclass passed through the public eval_ctx argument, recording "
+              "call targets), CPython 3.12.1; bounded universes; object identity of scalars is not compared")
+META["C09"] = {"engine": "eval-family", "design_ref": "DESIGN.md 5/C09",
+    "technique": "TLC model checking (safety + liveness) of AyBuild+AyEval + behaviour replay / trace validation against the library",
+    "text": "AyEval is evaluation as a step machine (evaluation stack, per-path cache, heap ids, one reference link per step). TLC "
+            "checks Alias (a reference and its final target hold the same heap id), Dangling (EvalError iff some reference is missing, "
+            "cyclic, or circular through containers), a step bound in every state and the liveness property Terminates under weak "
+            "fairness without state constraint; the mutation NoCycleCheck (the pre-fix code) yields a lasso. Every enumerated config is "
+            "built and evaluated in the library under a step-bounded EvalContext (a hang is a deterministic verdict), identities, data "
+            "and evaluation order compared; recorded random evaluations are validated by TLC with the formulas on the logged outcome.",
+    "note": _EVAL_NOTE}
+META["C10"] = {"engine": "eval-family", "design_ref": "DESIGN.md 5/C10",
+    "technique": "TLC model checking of AyBuild+AyEval + behaviour replay / trace validation against the library",
+    "text": "On the same machine TLC checks AtMostOnce in every state, ExactlyOnce at the end, that calls only come from nodes of the "
+            "merged tree (overwritten / deleted nodes never run), that every consumer holds the producer's heap id, and order-freedom "
+            "through a denotational reading of the tree (the result equals Denote(tree), which does not depend on any order); the "
+            "library's call log is attributed to node paths and compared in order; mutation NoIdCache must be refuted.",
+    "note": _EVAL_NOTE}
+META["C11"] = {"engine": "eval-family", "design_ref": "DESIGN.md 5/C11",
+    "technique": "TLC model checking of the Config life cycle (MC_Eval: Again / Mutate) + behaviour replay / trace validation against the library",
+    "text": "MC_Eval adds the Config life cycle: the kept source is evaluated again (heap ids keep growing) and earlier results are "
+            "mutated. TLC checks that the working tree never changes once evaluation started (action property SourceStable), that "
+            "re-evaluation gives equal data sharing no mutable object with earlier results, and Mirror (the result is the denotation "
+            "of the merged tree). In the library: exact type of every value and key, Bunch + attribute identity, no node in the "
+            "result, source projection unchanged after evaluation, re-evaluation and mutation of every container.",
+    "note": _EVAL_NOTE}
 NOT_APPLICABLE = {}
 
 
@@ -464,8 +595,13 @@ import importlib
 for _i in range(1, 21):
     _name = "c%02d" % _i
     if os.path.exists(os.path.join(HERE, _name + ".py")):
-        _m = importlib.import_module(_name)
-        CHECKS[_m.PROP] = _m.run
-        META[_m.PROP] = _m.META
+        try:
+            _m = importlib.import_module(_name)
+            _run, _meta, _prop = _m.run, _m.META, _m.PROP
+        except Exception as _e:  # a module still under construction must not break the other checks
+            sys.stderr.write(f"registry: skipping {_name}.py ({type(_e).__name__}: {_e})\n")
+            continue
+        CHECKS[_prop] = _run
+        META[_prop] = _meta
         if getattr(_m, "ENGINE", None):
             ENGINES.append(_m.ENGINE)
